@@ -22,7 +22,15 @@ def main():
             fd.write(f'{x}\n')
             fd.flush()
             os.fsync(fd.fileno())
-        return None if x % 3 == 0 else x * 7 + 3      # None is a legal example value
+        if x % 3 == 0:
+            return None                                # None is a legal example value
+        if x % 4 == 1:
+            # a large example: diskcache keeps values of 32 KiB and more as files in sub-directories of the cache directory
+            return (x * 7 + 3, 'p' * 40000)
+        return x * 7 + 3
+
+    def small(v):
+        return v[0] if isinstance(v, tuple) and len(v) == 2 and isinstance(v[1], str) and len(v[1]) == 40000 else v
     base = lazy_dataset.new({f'k{j}': j for j in range(n)}).map(f)      # keyed: examples are read by position and by key
     holders = {}
     its = {}          # iterators in flight: id -> (wrapper, iterator)
@@ -40,13 +48,13 @@ def main():
                 ds_ = holders[op['w']][0]
                 if op.get('how') == 'np':               # the index as numpy integer
                     import numpy as np
-                    rep = {'val': ds_[np.int64(op['i'])]}
+                    rep = {'val': small(ds_[np.int64(op['i'])])}
                 elif op.get('how') == 'neg':            # the same position counted from the end
-                    rep = {'val': ds_[op['i'] - n]}
+                    rep = {'val': small(ds_[op['i'] - n])}
                 elif op.get('how') == 'slice':          # through a slice (which indexes with numpy integers)
-                    rep = {'val': list(ds_[op['i']:op['i'] + 1])[0]}
+                    rep = {'val': small(list(ds_[op['i']:op['i'] + 1])[0])}
                 else:
-                    rep = {'val': ds_[f"k{op['i']}" if op.get('by_key') else op['i']]}
+                    rep = {'val': small(ds_[f"k{op['i']}" if op.get('by_key') else op['i']])}
                 del ds_           # (no stray reference: the wrapper must die with its last holder)
             elif k == 'next':
                 # the same access made by a plain iteration in flight (position op['i'])
@@ -57,9 +65,9 @@ def main():
                 v_ = next(its[op['it']][1])
                 if op.get('items'):
                     # keyed iteration: the pair must carry the key of its position
-                    rep = {'val': v_[1]} if v_[0] == f"k{op['i']}" else {'err': 'mispaired key ' + str(v_[0])}
+                    rep = {'val': small(v_[1])} if v_[0] == f"k{op['i']}" else {'err': 'mispaired key ' + str(v_[0])}
                 else:
-                    rep = {'val': v_}
+                    rep = {'val': small(v_)}
             elif k == 'copy':
                 holders[op['w']].append(holders[op['w']][0].copy())
                 rep = 'ok'
